@@ -169,6 +169,11 @@ def run_which(ctx, which):
         model_check(ctx, which, quick)
         n = 120 if quick else 1500
         cases = [decmatrix.make_case(rng, ctx, i, want) for i in range(n)]
+        if which == "C12":
+            # other log bases: finer ones need wider entries in the log-add table the posteriors are summed with
+            for k, lb in enumerate([1.00001, 1.00002, 1.0003, 1.00001] if quick else [1.00001, 1.00002, 1.0003, 1.001] * 6):
+                cases.append(decmatrix.make_case(rng, ctx, n + 300 + k, want, {"config": {"logbase": lb}, "english_only": True,
+                                                                             "no_synth": True, "audio": rng.choice(["gf", "cut", "head"])}))
         # lattices built by the unchanged code from every history table the abstract search reaches
         q = (lambda tag: ["result " + tag, "lattice %s 0" % tag]) if which == "C11" else \
             (lambda tag: ["result " + tag, "lattice %s 1" % tag, "nbest %s 30 1" % tag])
